@@ -59,7 +59,9 @@ def _r6(ctx):
             summ = eff.summary(f)
             if summ is None:
                 raise AnalysisError("effect summary of %s unavailable" % f.key)
-            bad = [e for e in summ["effects"] if e.origin == ("self", "_obj")]
+            # the broadcaster's paired temporary re-coding (restored on every normal path, decided by C13) is not a write
+            bad = [e for e in summ["effects"] if e.origin == ("self", "_obj") and
+                   not e.func.startswith("pylife.core.broadcaster:")]
             n += 1
             if bad:
                 e = bad[0]
